@@ -63,7 +63,7 @@ impl Check for C04 {
     }
     fn runs(&self, tier: Tier) -> u64 {
         match tier {
-            Tier::Quick => 200_000,
+            Tier::Quick => 500_000,
             Tier::Thorough => 50_000_000,
         }
     }
